@@ -45,7 +45,10 @@ FamsSim14 == {FamSim(14)}
 \* concurrent: 3 sequential steps then 3 par steps (exhaustive), or 6 + 5 (simulation)
 FamConcX   == F("conc", {"cancelctx", "cancel"}, 6, 3, {}, {}, {"k1"}, {"v1"})
 FamConcSim(s, p) == F("concsim", {"cancelctx", "deadline", "value", "cancel", "tick"}, s + p, s, {1, 2, 9}, {}, {"k1"}, {"v1"})
-FamsConcQuick == {FamConcX}
+FamConcV   == F("concv", {"cancelctx", "value", "cancel"}, 5, 3, {}, {}, {"k1"}, {"v1"})
+FamConcX4  == F("conc4", {"cancelctx", "cancel"}, 7, 3, {}, {}, {"k1"}, {"v1"})
+FamsConcQuick    == {FamConcX}
+FamsConcThorough == {FamConcX4, FamConcV}
 FamsConcSimQ  == {FamConcSim(6, 5)}
 FamsConcSimT  == {FamConcSim(7, 8)}
 
